@@ -92,7 +92,10 @@ def json_numpy_or_set_obj_hook(
     if isinstance(dct, dict) and '_is_numpy_array' in dct:
         if dct['_is_numpy_array'] is True:
             data = dct['data']
-            return np.array(data)
+            array = np.array(data, dtype=dct.get('dtype'))
+            if 'shape' in dct:
+                array = array.reshape(dct['shape'])
+            return array
 
         raise ValueError(  # pragma: no cover
             'Json representation contains the "_is_numpy_array" key '
